@@ -13,6 +13,13 @@ ORIGIN = {
     "_r3": "independent sub-agent given only the property text, a scratch worktree and one-line descriptions of the "
            "round-1 and round-2 ideas to avoid (round 3: asked for state kept between steps, rarely used forms, "
            "optimisations with a forgotten case)",
+    "_r4": "independent sub-agent given only the property text, a scratch worktree and one-line descriptions of the "
+           "three earlier ideas to avoid (round 4)",
+    "_r5": "independent sub-agent given only the property text, a scratch worktree and one-line descriptions of the "
+           "four earlier ideas to avoid (round 5: asked for boundary conditions, forgotten cases, wrong operators; no "
+           "stale caches or shared mutable objects)",
+    "_r6": "independent sub-agent given only the property text, a scratch worktree and one-line descriptions of the "
+           "five earlier ideas to avoid (round 6: asked to list the property's clauses and attack an untouched one)",
 }
 
 
